@@ -103,7 +103,7 @@ def gen_cases(rng, tier):
     for i in range(n_other):
         for op in ('renumber', 'renumber_map', 'copy', 'expand', 's_model', 'noisy_kill', 'subs'):
             icm = 'unequal' if op in ('s_model', 'renumber', 'renumber_map') and rng.random() < 0.7 else 'none'
-            nl = G.gen_netlist(rng, 'mixed', icm, 'same', extras=False, small=True)
+            nl = G.gen_netlist(rng, 'mixed', icm, 'same', extras=False, small=True, kw='step' if op == 's_model' else None)
             lines = nl['lines']
             if op in ('renumber', 'renumber_map', 'copy') and rng.random() < 0.5:
                 lines = G.add_wire_split(rng, lines)
@@ -259,8 +259,8 @@ def switch_checks(idx, case, wr):
             spec_bad.append('%s not replaced' % tok[0])
             continue
         closed = obs == 'W'
-        exprs.append('Bool.eqb (switch_closedQ %s %s %s %s) %s' % ('true' if nc else 'false', 'true' if before else 'false',
-                                                                  E.qc(t), E.qc(T), 'true' if closed else 'false'))
+        a_ = ('true' if nc else 'false', 'true' if before else 'false', E.qc(t), E.qc(T), 'true' if closed else 'false')
+        exprs.append(('Bool.eqb (switch_closed_specQ %s %s %s %s) %s' % a_, 'Bool.eqb (switch_closedQ %s %s %s %s) %s' % a_))
         activated = (T < t) if before else (T <= t)
         want = (not activated) if nc else activated
         if want != closed:
@@ -387,8 +387,10 @@ def run(tier='quick', replay=None):
                 elif c['op'] in ('switch', 'switch_before'):
                     exprs, spec_bad = switch_checks(gid, c, r)
                     meta[gid] = ('switch', ci, ri, spec_bad)
-                    e_ = ' && '.join(exprs) if exprs else 'true'
-                    items.append((gid, '', '(%d, (if %s then 0 else 1), (true, true, true, true, @nil nat))' % (gid, e_)))
+                    e_spec = ' && '.join(x[0] for x in exprs) if exprs else 'true'
+                    e_mod = ' && '.join(x[1] for x in exprs) if exprs else 'true'
+                    # 0: what the switches really do; 6: the unchanged tree's `before` test; 1: neither
+                    items.append((gid, '', '(%d, (if %s then 0 else if %s then 6 else 1), (true, true, true, true, @nil nat))' % (gid, e_spec, e_mod)))
                     gid += 1
                 else:
                     d, expr = other_check(gid, c, r)
@@ -462,9 +464,11 @@ def run(tier='quick', replay=None):
                 if m[3]:
                     key = 'replace_switches_before:inverted' if c['op'] == 'switch_before' else 'oracle:switch'
                     add(key, 'switch replacement differs from the state the switches have: ' + '; '.join(m[3][:3]), c, found_input=True)
-                if code not in (0, None):
+                if code not in (0, 6, None):
                     add('correspondence:switch', 'model of SW._replace_switch and implementation differ', c, found_input=False,
                         correspondence='LT.RewriteModel.switch_closed')
+                if code == 6 and not m[3]:
+                    add('correspondence:switch:spec', 'Coq model says the switch state is wrong but the python spec does not', c, found_input=False)
                 continue
             so = sol_of(('o', ci))
             sn = sol_of(('n', ci, r.get('text'))) if 'text' in r else None
@@ -489,7 +493,7 @@ def run(tier='quick', replay=None):
                         if ent[0] == 'node_map':
                             nm = ent[1]
                     co = dict(c, node_rename=nm)
-                obad = G.oracle(co, r['orig'], r['new'], so, sn)
+                obad = G.oracle(co, r['orig'], r['new'], so, sn, r.get('log'))
             tags = []
             if kind == 'simplify' and flags is not None:
                 tags = ['simplify:' + TAGS[e] for e in sorted(set(events))]
